@@ -27,7 +27,11 @@ FieldTable ==
     Sc448       |-> FT(L448, 56, 56),
     MSpec193    |-> FT(MSPEC193, 25, 32),
     MSpec255    |-> FT(MSPEC255, 32, 32),
-    MSpec256    |-> FT(MSPEC256, 32, 32) ]
+    MSpec256    |-> FT(MSPEC256, 32, 32),
+    GG130       |-> FT(GG130, 17, 17),
+    GG256       |-> FT(GG256, 32, 32),
+    GG384       |-> FT(GG384, 48, 48),
+    GG512       |-> FT(GG512, 64, 64) ]
 
 \* documented correction range of the 128-bit fraction split (src/backend/mod.rs)
 SplitM(q) == IF Le(q, NMAX253) THEN 0 ELSE IF Le(q, NMAX255) THEN 1 ELSE 2
